@@ -1,6 +1,6 @@
 CLAIM = ("Termination and work bounds as solver queries: explicit step budgets (ghost counters in the environment stubs) and "
          "unwinding assertions with bounds derived from the input sizes, over the skip loops, the SFX scan, the decoder read loop "
-         "and the header-extension loops; allocation sizes bounded by constants + bytes consumed.")
+         "and the header-extension loops, the MacBinary envelope loop, the seek path over the 32-bit range; allocation sizes bounded by constants + bytes consumed (header growth by exactly nbytes and <= 1 MiB per request; one decoder <= about 2 MiB from the real method table; at most two decoders alive per reader).")
 ASSUMPTIONS = ["source read contract: returns <= requested, 0 at end of data, -1 on error"]
 from C16 import SKIP, it
 from hdr_common import l1ext, walk, extend
